@@ -125,7 +125,10 @@ type twinTrace struct {
 	probes map[string]string
 }
 
-func runTwin(tw *world, h history) (tt twinTrace) {
+// runTwin executes the operations of h and then exactly the probe calls the world under test will make in state ps
+// (both phases, same order): functions count their calls in their private memory, so the two worlds must make the
+// same calls to give the same answers.
+func runTwin(tw *world, h history, ps state) (tt twinTrace) {
 	tt.probes = map[string]string{}
 	for _, c := range h.Init.Mods {
 		if r := tw.do(op{K: kInst, X: int(c - 'A')}); r != "ok" {
@@ -136,7 +139,6 @@ func runTwin(tw *world, h history) (tt twinTrace) {
 		r := "ok"
 		switch o.K {
 		case kInst:
-			// executed even if the world under test will fail to instantiate it: probes of other modules do not depend on it
 			if tw.inst[o.X] == nil {
 				r = tw.do(o)
 			}
@@ -145,23 +147,27 @@ func runTwin(tw *world, h history) (tt twinTrace) {
 		}
 		tt.ops = append(tt.ops, r)
 	}
-	for x := 0; x < 3; x++ {
-		if tw.inst[x] == nil {
-			continue
-		}
-		for _, fn := range probeFns[x] {
-			_, tt.probes[modNames[x]+"."+fn] = tw.call(x, fn)
+	for _, phase := range probePhases {
+		for x := 0; x < 3; x++ {
+			if ps.Inst[x] == instNone || ps.Drop[x] || tw.inst[x] == nil {
+				continue
+			}
+			for _, fn := range probeFns[x] {
+				_, tt.probes[modNames[x]+"."+fn+"#"+phase] = tw.call(x, fn)
+			}
 		}
 	}
 	return tt
 }
+
+var probePhases = []string{"probe", "probe-after-gc"}
 
 // execHistory runs h on engine eng. mark is called before every step that can fault.
 func execHistory(h history, eng int, mark func(step int, site, phase string)) (res caseResult) {
 	res.Outs = map[string]int{}
 	mark(-1, "twin", "twin")
 	tw := twins.get(eng)
-	tt := runTwin(tw, h)
+	tt := runTwin(tw, h, h.final())
 	// only modules the history can touch are compiled (an uninstantiated, unmentioned module is not part of the world)
 	var need [3]bool
 	for _, c := range h.Init.Mods {
@@ -260,11 +266,18 @@ func execHistory(h history, eng int, mark func(step int, site, phase string)) (r
 			s = s.apply(o)
 		}
 	}
+	if n := len(h.Ops); res.Status == "operr" && n > 0 && h.Ops[n-1].K == kInst {
+		// the last instantiation failed in the world under test: the twin that matches is the one that never attempted it
+		// (a complete fresh twin run, still before the collection below)
+		twins.release(eng, false)
+		h2 := history{Init: h.Init, Ops: h.Ops[:n-1]}
+		tt = runTwin(tw, h2, s)
+	}
 	// probes: every call the host can still make, before and after a forced collection.
-	for _, phase := range []string{"probe", "probe-after-gc"} {
+	for _, phase := range probePhases {
 		if phase == "probe-after-gc" {
 			mark(len(h.Ops), "forced-gc", phase)
-			forcedGC()
+			w.collect()
 		}
 		for x := 0; x < 3; x++ {
 			if s.Inst[x] == instNone || s.Drop[x] {
@@ -274,7 +287,7 @@ func execHistory(h history, eng int, mark func(step int, site, phase string)) (r
 				site := modNames[x] + "." + fn
 				mark(len(h.Ops), site, phase)
 				_, test := w.call(x, fn)
-				twin := tt.probes[site]
+				twin := tt.probes[site+"#"+phase]
 				res.Probes++
 				cl, kind := judge(test, twin, s)
 				if kind != "" {
@@ -282,6 +295,11 @@ func execHistory(h history, eng int, mark func(step int, site, phase string)) (r
 				}
 				res.Outs[cl]++
 			}
+		}
+		// nothing may have written into memory that was collected and handed out again
+		mark(len(h.Ops), "sentinel-blocks", phase)
+		if bad := w.checkSentinels(); bad != "" {
+			return fail(len(h.Ops), "sentinel-blocks", phase, "wrote-into-collected-memory", bad, "")
 		}
 	}
 	if res.Status == "" {
